@@ -18,6 +18,7 @@ import (
 	"time"
 
 	"rare/cmd/helpers"
+	"rare/pkg/color"
 	"rare/pkg/extractor"
 	"rare/pkg/extractor/batchers"
 	"rare/pkg/matchers"
@@ -62,6 +63,7 @@ type MatchObs struct {
 	Indices   []int  `json:"indices"`
 	IdxAfter  []int  `json:"indices_after"`
 	Extracted string `json:"extracted_hex"`
+	Wrapped   string `json:"filter_output_hex"` // what `rare filter` prints for this match with colour on
 }
 
 type Result struct {
@@ -75,6 +77,8 @@ type Result struct {
 	LogTotal  int        `json:"matcher_calls"`
 	Summary   string     `json:"summary"`
 }
+
+var colorMu sync.Mutex // color.Enabled is a package-level switch
 
 // ---------- oracle matchers ----------
 
@@ -347,7 +351,21 @@ func run(cfg Config, sources []Source, dir string) Result {
 	}
 	res.R, res.M, res.I = ex.ReadLines(), ex.MatchedLines(), ex.IgnoredLines()
 	res.ReadErrs = batcher.ReadErrors()
+	colorMu.Lock()
+	color.Enabled = false
 	res.Summary = helpers.FWriteExtractorSummary(ex, 0)
+	// cmd/filter.go: a single pair highlights the whole match, otherwise the groups are highlighted
+	color.Enabled = true
+	for i := range res.Matches {
+		m := all[i].m
+		groups := m.Indices
+		if len(groups) != 2 {
+			groups = groups[2:]
+		}
+		res.Matches[i].Wrapped = hex.EncodeToString([]byte(color.WrapIndices(m.Line, groups)))
+	}
+	color.Enabled = false
+	colorMu.Unlock()
 	res.LogTotal = int(atomic.LoadInt64(&fac.calls))
 	for _, rd := range readers {
 		res.Delivered = append(res.Delivered, hex.EncodeToString(rd.delivered))
